@@ -347,7 +347,7 @@ func init() {
 		Title: "Package encodings are self-consistent and match their wire layout",
 		Pkgs:  []string{"./tds"},
 		Funcs: []string{
-			`^\(tds\.(CurClosePackage|CurDeletePackage|CurFetchPackage|CurInfoPackage|CurOpenPackage|CurUpdatePackage|EEDPackage|EnvChangePackage|ErrorPackage|LoginAckPackage|OptionCmdPackage|MsgPackage|DonePackage|ReturnStatusPackage|LogoutPackage)\)\.WriteTo$`,
+			`^\(tds\.(CapabilityPackage|CurClosePackage|CurDeletePackage|CurFetchPackage|CurInfoPackage|CurOpenPackage|CurUpdatePackage|EEDPackage|EnvChangePackage|ErrorPackage|LoginAckPackage|OptionCmdPackage|MsgPackage|DonePackage|ReturnStatusPackage|LogoutPackage)\)\.WriteTo$`,
 			`^\(\*tds\.LanguagePackage\)\.WriteTo$`, `^\(tds\.EnvChangePackageField\)\.WriteTo$`,
 			`^\(\*tds\.(EnvChangePackage|EnvChangePackageField|ErrorPackage|EEDPackage|DonePackage|ReturnStatusPackage)\)\.ReadFrom$`,
 			`^\(\*tds\.LoginConfig\)\.pack$`, `^tds\.(writeString|writeBasedOnEndian)$`,
@@ -364,7 +364,7 @@ func init() {
 		Notes: []string{
 			"proved (unbounded, all field values that fit the width of the length field): the length field written after the token byte equals the number of bytes that follow it for CURCLOSE, CURDELETE, CURFETCH, CURINFO, CUROPEN, CURUPDATE, EED, ERROR, OPTIONCMD (16 bit), LANGUAGE (32 bit) and MSG (8 bit); DONE has the fixed size 9; every writer only appends; the login record has its fixed layout with oversized fields rejected (see C09); an environment change member is always read into a zeroed member",
 			"bounded: read-back equality for the package types listed in the bound",
-			"unclaimed: the length clause of ENVCHANGE (needs a sum invariant the solvers time out on) and LOGINACK (the length is a struct field supplied by the caller); CAPABILITY is outside the generator's subset (invalid basic type in its value mask code)",
+			"unclaimed: the length clause of ENVCHANGE (needs a sum invariant the solvers time out on) and LOGINACK (the length is a struct field supplied by the caller); CAPABILITY (the length is a sum over a map that is iterated twice in unrelated orders)",
 		},
 	}
 	properties["C12"] = &Property{
@@ -386,14 +386,14 @@ func init() {
 		ID:    "C13",
 		Title: "Cancelled or closed channels never block and never deliver",
 		Pkgs:  []string{"./tds"},
-		Funcs: []string{`^\(\*tds\.Channel\)\.(NextPackage|QueuePackage|SendRemainingPackets|SendPackage|WritePacket|Close|Reset)$`},
+		Funcs: []string{`^\(\*tds\.Channel\)\.(NextPackage|QueuePackage|SendRemainingPackets|SendPackage|WritePacket|Close|Reset)$`, `^\(\*tds\.Conn\)\.Close$`},
 		Assumptions: []string{
 			"SEQUENTIAL ONLY: goroutines, blocking, time and context cancellation are not modelled (a select is an arbitrary choice among its cases); the never-blocks / returns-promptly / bounded-time clauses of the property are not decided",
 			"sync.RWMutex is modelled as a no-op; the recursive read lock in SendRemainingPackets -> Reset and sends on the package channel under the read lock are outside what the contracts express",
 		},
 		Notes: []string{
-			"proved (sequential, unbounded): on a closed channel NextPackage, QueuePackage, SendRemainingPackets and SendPackage return an error matching ErrChannelClosed, deliver no package and leave the wire and the transmit queue untouched; WritePacket puts nothing on the package channel of a closed channel; Close marks the channel closed and closes the package channel exactly once (a second Close reports ErrChannelClosed)",
-			"not decided: promptness after cancellation, that a send with a cancelled context writes nothing (needs the link between a context's Done channel and its Err, not modelled), bounded-time Close, Conn.Close",
+			"proved (sequential, unbounded): on a closed channel NextPackage, QueuePackage, SendRemainingPackets and SendPackage return an error matching ErrChannelClosed, deliver no package and leave the wire and the transmit queue untouched; WritePacket puts nothing on the package channel of a closed channel; Close marks the channel closed and closes the package channel exactly once (a second Close reports ErrChannelClosed); Conn.Close closes the transport on every path, whatever the state of the connection context (its per-channel obligations, which need facts about the pointers stored in the channel map, are unclaimed)",
+			"not decided: promptness after cancellation, that a send with a cancelled context writes nothing (needs the link between a context's Done channel and its Err, not modelled), bounded-time Close, that Conn.Close also closes every channel and ends the reader",
 		},
 	}
 }
